@@ -21,9 +21,21 @@ pub fn verif_draw(f: &mut DrawFn, writer: &mut Writer, text: &str, raw_text: &st
     ensures r.is_ok() ==> final(writer).hist() == old(writer).hist().push(Ev::Text(draw_out(text@, raw_text@, addendum@, text_style, decoration_style), true)),
             r.is_err() ==> final(writer).hist() == old(writer).hist(),
 { unimplemented!() }
+pub uninterp spec fn draw_pad(d: DecorationStyle) -> bool;
+pub uninterp spec fn draw_deco(d: DecorationStyle) -> ansi_term::Style;
 #[verifier::external_body]
 pub fn get_draw_function(decoration_style: DecorationStyle) -> (r: (DrawFn, bool, ansi_term::Style))
+    ensures r.1 == draw_pad(decoration_style), r.2 == draw_deco(decoration_style),
 { unimplemented!() }
+/// the commit line as shown: with hyperlinks on, the same line with the hash wrapped in a link
+pub open spec fn commit_shown(l: Seq<char>, config: &Config) -> Seq<char> { if config.hyperlinks { hyperlinked(l, config) } else { l } }
+/// what the commit handler draws: the decorated line is built from `line`, its raw variant from `raw_line`
+pub open spec fn commit_drawn(sm: &StateMachine) -> Seq<char> {
+    let ds = sm.config.commit_style.decoration_style;
+    let padv = if draw_pad(ds) { " "@ } else { ""@ };
+    draw_out(""@ + commit_shown(sm.line@, sm.config) + ""@ + padv + ""@, ""@ + commit_shown(sm.raw_line@, sm.config) + ""@ + padv + ""@,
+             ""@, sm.config.commit_style, draw_deco(ds))
+}
 // Cow::from(&String): "Converts a String reference into a Borrowed variant."
 pub assume_specification<'a>[ <Cow<'a, str> as From<&'a String>>::from ](s: &'a String) -> (r: Cow<'a, str>)
     ensures cow_view(&r) == s@;
